@@ -628,6 +628,35 @@ pub fn build_sys(cfg: &SysCfg, actors: Vec<Tab>, init_net: &RNet) -> Sys {
         .record_msg_out(rec_out)
 }
 
+/// The same system with the builder calls in another order (`order` 1: every option before the actors; 2: options
+/// between the actors, which are added one by one with `.actor()`). A builder describes one model whatever the order.
+pub fn build_sys_order(cfg: &SysCfg, actors: Vec<Tab>, init_net: &RNet, order: u8) -> Sys {
+    let lossy = if cfg.lossy { LossyNetwork::Yes } else { LossyNetwork::No };
+    match order {
+        1 => ActorModel::new(cfg.hist, Vec::new())
+            .max_crashes(cfg.max_crashes)
+            .lossy_network(lossy)
+            .record_msg_out(rec_out)
+            .record_msg_in(rec_in)
+            .init_network(net_to_real(init_net))
+            .actors(actors),
+        _ => {
+            let mut m = ActorModel::new(cfg.hist, Vec::new());
+            let n = actors.len();
+            for (i, a) in actors.into_iter().enumerate() {
+                m = m.actor(a);
+                if i == 0 {
+                    m = m.max_crashes(cfg.max_crashes).init_network(net_to_real(init_net));
+                }
+                if i + 1 == n {
+                    m = m.lossy_network(lossy);
+                }
+            }
+            m.record_msg_in(rec_in).record_msg_out(rec_out)
+        }
+    }
+}
+
 // ------------------------------------------------------------------------------------------------
 // xplore: breadth-first search over any Model, de-duplicating on a caller-supplied canonical key
 // ------------------------------------------------------------------------------------------------
